@@ -535,7 +535,8 @@ def hist_situations(h, hr):
             dbs = "nil-config" if r.get("nil") else "/".join(sorted(set([r.get("asn_db") or "absent", r.get("cc_db") or "absent"])))
             opened = sum(1 for x in hr["events"][:i] if x["ev"] == "open")
             ended = sum(1 for x in hr["events"][:i] if x["ev"] == "err")
-            out.append("sit:reload/%s/%s" % (dbs, {0: "nil", 1: "empty-db", 2: "db-kept"}.get(e.get("geo_kind"), "?")))
+            out.append("sit:reload/%s" % dbs)
+            out.append("sit:reload-leaves/%s" % {0: "nil", 1: "empty-db", 2: "database"}.get(e.get("geo_kind"), "?"))   # (informative, not required)
             if opened > ended and opened < len(h["conns"]):
                 out.append("sit:reload/with-open-connections-and-later-ones")
             continue
@@ -731,6 +732,8 @@ def run(ctx):
         "a panic in a connection goroutine is taken to end the station process (nothing in cmd/application recovers it): the driver recovers it "
         "and the oracle counts every connection open at that instant as closed early",
         "int64 overflow of the statistics counters is not modelled",
+        "no valid MaxMind database file is available to the tie: reloads are run with database paths that are not configured, point to no file or "
+        "point to garbage (a good file occurs in the model only); OnReload's phantom-selector and blocklist parts are not modelled here",
     ]
     ctx.cov["trusted_base"] = [
         "Coq 8.16.1 kernel (coqc; coqchk in the thorough tier); vm_compute for evaluating the model on probes; no native_compute",
@@ -742,9 +745,9 @@ def run(ctx):
     ctx.cov["rule"] = ("probe streams 0-16 KiB: random at every threshold length, protocol look-alikes, every static prefix + garbage, genuine "
                        "flights with one bit flipped / one byte short / of unregistered or unvalidated clients, under arbitrary segmentation and "
                        "pacing, against registries none / invalid-only / one / many, crossed with the peer-address forms (IPv4 4-byte / ::ffff: form, "
-                       "global / ULA / loopback IPv6; TCP, UDP and string address objects) and IPv4 / IPv6 phantoms; plus histories of 3-14 connections on "
+                       "global / ULA / loopback / zoned link-local IPv6; TCP, UDP and string address objects) and IPv4 / IPv6 phantoms; plus histories of 3-14 connections on "
                        "real loopback sockets (every way a connection ends) interleaved with statistics epochs (between any two steps of a connection, "
-                       "inside the check window, unsynchronised every 2 ms); non-trivial = hash-distinct (kind, registry, peer address, script shape) "
+                       "inside the check window, unsynchronised every 2 ms) and with configuration reloads (real OnReload; GeoIP database paths absent / missing / garbage); non-trivial = hash-distinct (kind, registry, peer address, script shape) "
                        "probe / history connection that ran through the real handler until it returned")
     t0 = time.time()
 
@@ -872,8 +875,8 @@ def run(ctx):
                           + ["sit:mid-check/first", "sit:mid-check/later", "hist:geo-error/ok"]
                           + ["hist-peer:v4/real", "hist-peer:v6/tcp", "hist-peer:v4/tcp4", "hist-peer:zoned/tcp"]
                           # the lifecycle: reloads between connections, every kind of GeoIP database configuration
-                          + ["hist:reload/ok", "sit:reload/absent/corrupt/db-kept", "sit:reload/absent/missing/db-kept", "sit:reload/absent/empty-db",
-                             "sit:reload/nil-config/empty-db", "sit:reload/corrupt/empty-db", "sit:reload/corrupt/missing/empty-db",
+                          + ["hist:reload/ok", "sit:reload/absent/corrupt", "sit:reload/absent/missing", "sit:reload/absent",
+                             "sit:reload/nil-config", "sit:reload/corrupt", "sit:reload/corrupt/missing",
                              "sit:reload/with-open-connections-and-later-ones"]
                           + ["sit:eof/0B/cc@epoch", "sit:timeout/0B/cc@epoch", "sit:rst/0B/cc@epoch", "sit:eof/data/cc@epoch", "sit:rst/data/cc@epoch",
                              "sit:timeout/data/cc@epoch", "sit:eof/noregs/cc@epoch", "sit:timeout/noregs/cc@epoch", "sit:timeout/drained/cc@epoch",
